@@ -1,4 +1,4 @@
-import sys; sys.path.insert(0,'/tmp/fixes'); from edit import rep
+import sys; sys.path.insert(0,'/verif/tools'); from edit import rep
 rep('segno/cli.py', """        config = {k: config[k] for k in config if k in supported_args}
 """, """        config = {k: config[k] for k in config if k in supported_args}
         if config.get('unit', '') is None:
